@@ -758,6 +758,13 @@ def opDrop (w : World) (a : Args) : World × String :=
 def opReset (w : World) (a : Args) : World × String :=
   ({}, "ok")
 
+/-- a malformed call of one of the kinds the library refuses before touching the map
+    (`bad <map> k=<kind>`; the kinds are listed in harness/real.py `BAD_KINDS`): the model
+    answers `err` and changes nothing.  An implementation that accepts such a call is not
+    thereby in violation (drift policy); the layout of the real map is checked afterwards. -/
+def opBad (w : World) (a : Args) : World × String :=
+  withMap w a fun _ => (w, "err value")
+
 def stepArgs (w : World) (op : String) (a : Args) : World × String :=
   match op with
   | "cfg" => opCfg w a
@@ -809,6 +816,7 @@ def stepArgs (w : World) (op : String) (a : Args) : World × String :=
   | "state" => opState w a
   | "drop" => opDrop w a
   | "reset" => opReset w a
+  | "bad" => opBad w a
   | _ => (w, "bad-op:unknown")
 
 def step (w : World) (line : String) : World × String :=
